@@ -345,6 +345,13 @@ func init() {
 			return nil, err
 		}
 		res := &WRes{}
+		if j.Reg == "jwks-uri" {
+			jwksURIAll("C10", res)
+			if res.Notes["accepted"] > 0 {
+				res.note("processed")
+			}
+			return res, nil
+		}
 		for _, tr := range c10Transports {
 			for _, se := range c10Secrets {
 				for _, skip := range []bool{false, true} {
@@ -380,7 +387,8 @@ func init() {
 				jobs = append(jobs, c10Job{Reg: reg, Endpoint: ep})
 			}
 		}
-		r.Bounds = map[string]any{"registrations": c10Regs, "transports": c10Transports, "secret_relations": c10Secrets, "endpoints": c10Endpoints, "jwt_bearer_can_skip_client_auth": []bool{false, true}, "hasher": "real bcrypt (cost 4)"}
+		jobs = append(jobs, c10Job{Reg: "jwks-uri"})
+		r.Bounds = map[string]any{"jwks_uri": "private_key_jwt clients resolved through jwks_uri (real fetcher + cache, in-memory transport): 6 look-alike URI pairs x 6 warm-up histories x 4 cross-client presentations", "registrations": c10Regs, "transports": c10Transports, "secret_relations": c10Secrets, "endpoints": c10Endpoints, "jwt_bearer_can_skip_client_auth": []bool{false, true}, "hasher": "real bcrypt (cost 4)"}
 		r.Rule = "full product registration x endpoint/grant x transport x secret relation (x skip-auth setting) on a fresh provider with real bcrypt; prerequisites (code, refresh token, device code) are minted through a legitimate presentation first; processed => the presentation authenticates the registration per an independent reference; rejected => no write to any code/token table, unchanged store dump, victim token still active"
 		r.Assumptions = []string{"mixed presentations (both transports, assertion+basic) and secrets sent by method=none clients are don't-care", "failing the HTTP Basic form-encoding requirement with special characters is don't-care"}
 		res := r.Pool.Do("c10", jobs, r.Deadline)
